@@ -81,21 +81,45 @@ def checkName (s : Svc) (strict : Bool) : Except PyExc Unit :=
   | .error e => .error e
   | .ok t => if t <:+ s.type.toList then .ok () else .error .badType
 
+/-- the records one transmission of `_async_broadcast_service` carries (`_add_broadcast_answer`) -/
+def broadcastRecs (s : Svc) : List Rec := [RespSpec.ptrOf s, RespSpec.srvOf s, RespSpec.txtOf s] ++ RespSpec.addrsOf s
+
+/-- the D28 repair: `self.generate_service_broadcast(info, None).packets()` — every record of the service is encoded once, and an
+encoder exception (`NamePartTooLongException`, `struct.error` …) goes to the caller, before the registry holds the service.
+`enabled` is the translated leaf (`register_encodes_first` / `update_encodes_first`): false on the unrepaired tree, where the
+unencodable service is registered and the exception surfaces only in the broadcast task (defect D28) -/
+def encodesFirst (enabled : Bool) (s : Svc) : Except PyExc Unit :=
+  if enabled then
+    match Encode.packets (multicastMsg ⟨(broadcastRecs s).map wireOfRec, []⟩) with
+    | .error e => .error e
+    | .ok _ => .ok ()
+  else .ok ()
+
 /-- `async_register_service` from the name check to `registry.async_add(info)`; `.error` goes to the caller, nothing was changed -/
 def registerE (d : CS υ) (s : Svc) (strict : Bool) : Except PyExc (CS υ) :=
   match checkName s strict with
   | .error e => .error e
   | .ok () =>
-    match d.reg.add lower s with
+    match encodesFirst Gen.SurviveApi.register_encodes_first s with
+    | .error e => .error e
+    | .ok () =>
+      match d.reg.add lower s with
+      | .error e => .error e
+      | .ok reg' => .ok { d with reg := reg' }
+
+/-- `async_update_service` up to `registry.async_update(info)` -/
+def updateE (d : CS υ) (s : Svc) : Except PyExc (CS υ) :=
+  match encodesFirst Gen.SurviveApi.update_encodes_first s with
+  | .error e => .error e
+  | .ok () =>
+    match d.reg.update lower s with
     | .error e => .error e
     | .ok reg' => .ok { d with reg := reg' }
 
 /-- `MulticastOutgoingQueue.async_remove_answers(records)`, on record ids: struck as answers and as additionals of every pending group -/
-def purgeDict (W : List Nat) (a : Reply.Dict) : Reply.Dict :=
-  a.filterMap (fun e => if W.contains e.1 then none else some (e.1, e.2.filter (fun x => !(W.contains x))))
+def purgeDict (W : List Nat) (a : Reply.Dict) : Reply.Dict := a.withdraw W   -- the reply model's own (`Model/Reply.lean`)
 
-def purgeQueue (W : List Nat) (q : Reply.Queue) : Reply.Queue :=
-  { q with groups := q.groups.map (fun g => { g with answers := purgeDict W g.answers }) }
+def purgeQueue (W : List Nat) (q : Reply.Queue) : Reply.Queue := q.removeRecords W
 
 /-- the records `async_unregister_service` withdraws from the queues -/
 def withdrawn (s : Svc) (broadcastAddresses : Bool) : List Rec :=
@@ -112,9 +136,6 @@ def unregisterE (d : CS υ) (s : Svc) : Except PyExc (CS υ) :=
       let W := (withdrawn lower s entries.isEmpty).map (idOf lower d.rest.2.recs)
       .ok { d with reg := reg',
                    rest := (d.rest.1, { d.rest.2 with outQ := purgeQueue W d.rest.2.outQ, delayQ := purgeQueue W d.rest.2.delayQ }) }
-
-/-- the records one transmission of `_async_broadcast_service` carries (`_add_broadcast_answer`) -/
-def broadcastRecs (s : Svc) : List Rec := [RespSpec.ptrOf s, RespSpec.srvOf s, RespSpec.txtOf s] ++ RespSpec.addrsOf s
 
 /-- `generate_service_broadcast(info, None)` → `async_send` for the registered service with key `key` -/
 def serviceSendE (d : CS υ) (key : String) : Except PyExc (List (List Bytes)) :=
@@ -210,8 +231,8 @@ def apiStep (d : CS υ) : ApiBlock υ → Except PyExc (CS υ × List (COut ω))
     | .ok d' => .ok (d', [])
     | .error _ => .ok (d, [])
   | .update s =>
-    match d.reg.update lower s with
-    | .ok reg' => .ok ({ d with reg := reg' }, [])
+    match updateE lower d s with
+    | .ok d' => .ok (d', [])
     | .error _ => .ok (d, [])
   | .unregister s =>
     match unregisterE lower d s with
